@@ -211,6 +211,10 @@ class MainTransformer(object):
         if not target:
             message.warn_node(node,
                 "Can't find symbol '%s' referenced by \"rename-to\" annotation" % (rename_to, ))
+        elif target is node or node.shadowed_by:
+            message.warn_node(node,
+                "Function '%s' can't shadow '%s': it is itself shadowed by '%s'"
+                % (node.symbol, rename_to, node.shadowed_by or node.name))
         elif target.shadowed_by:
             message.warn_node(node,
                 "Function '%s' already shadowed by '%s', can't overwrite "
